@@ -163,7 +163,7 @@ class SingleStub:
         elif self.kind == 'linear':
             D = self.base * (1 + np.tensordot(self.slope, x, axes=([2], [0])))
         elif self.kind == 'table':
-            D = self.table[int(abs(x[0]) * 15.999) % 16]
+            D = self.table[int(abs(x[0]) * 15.999) % 16 if x[0] == x[0] else 0]
         else:
             D = self.base * (1 + 0.3 * x[0]) * math.exp(-self.Q / R_GAS * (1 / T - 1 / 1200.0))
         D = self.D0 * D
@@ -230,7 +230,7 @@ class HomStub:
             if self.kind == 'arrhenius':
                 v *= math.exp(-self.Q / R_GAS * (1 / T - 1 / 1200.0))
             elif self.kind == 'table':
-                v *= 1 + 0.5 * (int(X[0] * 16) % 3)
+                v *= 1 + 0.5 * ((int(X[0] * 16) % 3) if X[0] == X[0] else 0)
             return v
         return f
 
@@ -443,7 +443,10 @@ def run_real(case, factory=None):
                         n = op[1]
                         m.solve(n * dt0 * op[2], solverType=stype, minDtFrac=1.0 / (3 * n), maxDtFrac=case['maxDtFrac'])
                 except Exception as e:
+                    import traceback
                     rec['status'] = 'raised:%s:%s' % (type(e).__name__, str(e)[:80])
+                    site = [l.strip() for l in traceback.format_exc().splitlines() if l.strip().startswith('File "%s' % vlib.REPO)]
+                    rec['raised_at'] = site[-1] if site else None
                 rec.update(x_before=cur.get('x_before'), x_setup=cur.get('x_setup'), was_setup=cur.get('was_setup'),
                            s1=len(log['steps']), x_after=m.x.copy(), t_after=float(m.t))
                 log['ops'].append(rec)
@@ -566,10 +569,12 @@ def oracle(res, case, log):
             if 'sum up to above 1' in op['status'] and op['x_setup'] is None and (
                     expect_raise if not op['was_setup'] else float(np.max(np.sum(op['x_before'], axis=0))) > 1):
                 res.count('setup-raised-sum>1' + ('-later-call' if op['was_setup'] else ''))
-            elif 'zero-size array' in op['status']:
+            elif 'zero-size array' in op['status'] and 'in getDt' in (op.get('raised_at') or ''):
                 res.count('observation:getDt-raises-on-zero-dXdt')
             else:
-                res.violate('run-raised:' + op['status'].split(':')[1], 'the run raised ' + op['status'], d, op['status'], 'no exception')
+                res.violate('raises:%s:%s' % (op['kind'], op['status'].split(':')[1]), 'the implementation raised in %s(): %s' % (op['kind'], op['status']),
+                            _desc(case, op_index=k, raised_at=op.get('raised_at')), op['status'], 'no exception')
+                return          # partial log: nothing else is evaluated on this case
             break
         if expect_raise and not op['was_setup']:
             res.violate('setup-accepts-sum>1', 'setup accepted a profile with a node sum above 1', d)
@@ -836,52 +841,73 @@ def fingerprint(case, log):
     return (case['model'], case['scheme'], log['N'], log['E'], case['therm'], case['tseed'])
 
 
+def one_case(ctx, case, factory, oracle_only):
+    """everything for one generated case into a private Result (merged by `process` only when the whole case went through)"""
+    res = Result()
+    with warnings.catch_warnings():
+        warnings.simplefilter('ignore')       # RK4 stage states below 0 give log(negative) in the real code: counted as nonfinite-run-skipped
+        log = run_real(case, factory)
+    log.pop('model')
+    E, N = log['E'], log['N']
+    nsteps = len(log['steps'])
+    types = sorted({('comp' if r[0] else ('flux' if r[1] != 0 else 'closed')) for r in log['spec']} | {('comp' if r[2] else ('flux' if r[3] != 0 else 'closed')) for r in log['spec']})
+    res.case(fingerprint(case, log), nsteps > 0 and case['pkind'] != 'sum>1')
+    res.count('model:' + case['model']); res.count('scheme:' + case['scheme']); res.count('therm:' + case['therm'])
+    res.count('E=%d' % E); res.count('N<=5' if N <= 5 else 'N<=20' if N <= 20 else 'N<=80' if N <= 80 else 'N>80')
+    res.count('profile:' + case['pkind']); res.count('temp:' + case['temp'][0])
+    for ty in types:
+        res.count('bc:' + ty)
+    for steps in case['profile']:
+        res.count('builder:' + steps[-1][0])
+    res.count('solve-calls=%d' % sum(1 for o in log['ops'] if o['kind'] == 'solve'))
+    res.count('steps', nsteps); res.count('flux-evaluations', len(log['raw']))
+    if case['model'] == 'homog':
+        res.count('hfunc:' + case['hfunc'])
+        if any(n in INTERSTITIALS for n in case['names']):
+            res.count('homog-with-interstitial')
+    if nsteps and log['ops'] and log['ops'][0]['x_setup'] is not None:
+        res.sample(dict(case=_desc(case), steps=nsteps, dt=[s['dt'] for s in log['steps'][:3]],
+                        sum_first=[float(v) for v in log['ops'][0]['x_setup'].sum(axis=1)],
+                        sum_last=[float(v) for v in log['ops'][-1]['x_after'].sum(axis=1)]))
+    raised = bool(log['ops']) and log['ops'][-1]['status'] != 'ok'
+    finite = all(np.all(np.isfinite(r)) for r in log['raw']) and all(np.all(np.isfinite(st['xraw'])) for st in log['steps'])
+    # NaN states are outside the statement; so are their consequences in later calls (NaN column sums trip the sum check,
+    # the stub equilibrium returns no composition set for a NaN composition, ...)
+    # (any logged non-finite value precedes a later raise, so such a raise is a consequence, not a finding)
+    if not finite:
+        res.count('nonfinite-run-skipped')
+        return res, None
+    oracle(res, case, log)
+    item = None
+    if not oracle_only and finite and not any(v['key'].startswith('raises:') for v in res.violations) and all(r.shape == (E, N + 1) for r in log['raw']) and all('xnew' in st for st in log['steps'][:-1]):
+        aux = aux_lines(case, log, ctx.rng)
+        item = (case, log, aux, [driver_line(case, log)] + [a[1] for a in aux])
+    return res, item
+
+
 def process(ctx, res, cases, oracle_only=False, factory=None):
-    """run the real code on the cases, oracle, and (unless oracle_only) replay through the model driver"""
+    """run the real code on the cases, oracle, and (unless oracle_only) replay through the model driver.
+    Every case runs in its own guard: an exception out of the code under test is a violation carrying the case, the run goes on;
+    an exception of the harness is collected and re-raised by vlib.finish_guard only if nothing was found."""
     batch, lines = [], []
     for case in cases:
-        with warnings.catch_warnings():
-            warnings.simplefilter('ignore')       # RK4 stage states below 0 give log(negative) in the real code: counted as nonfinite-run-skipped
-            log = run_real(case, factory)
-        m = log.pop('model')
-        E, N = log['E'], log['N']
-        nsteps = len(log['steps'])
-        types = sorted({('comp' if r[0] else ('flux' if r[1] != 0 else 'closed')) for r in log['spec']} | {('comp' if r[2] else ('flux' if r[3] != 0 else 'closed')) for r in log['spec']})
-        res.case(fingerprint(case, log), nsteps > 0 and case['pkind'] != 'sum>1')
-        res.count('model:' + case['model']); res.count('scheme:' + case['scheme']); res.count('therm:' + case['therm'])
-        res.count('E=%d' % E); res.count('N<=5' if N <= 5 else 'N<=20' if N <= 20 else 'N<=80' if N <= 80 else 'N>80')
-        res.count('profile:' + case['pkind']); res.count('temp:' + case['temp'][0])
-        for ty in types:
-            res.count('bc:' + ty)
-        for steps in case['profile']:
-            res.count('builder:' + steps[-1][0])
-        res.count('solve-calls=%d' % sum(1 for o in log['ops'] if o['kind'] == 'solve'))
-        res.count('steps', nsteps); res.count('flux-evaluations', len(log['raw']))
-        if case['model'] == 'homog':
-            res.count('hfunc:' + case['hfunc'])
-            if any(n in INTERSTITIALS for n in case['names']):
-                res.count('homog-with-interstitial')
-        if len(res.samples) < 2 and nsteps:
-            res.sample(dict(case=_desc(case), steps=nsteps, dt=[s['dt'] for s in log['steps'][:3]],
-                            sum_first=[float(v) for v in (log['ops'][0]['x_setup'].sum(axis=1) if log['ops'][0]['x_setup'] is not None else [])],
-                            sum_last=[float(v) for v in log['ops'][-1]['x_after'].sum(axis=1)]))
-        finite = all(np.all(np.isfinite(r)) for r in log['raw']) and all(np.all(np.isfinite(st['xraw'])) for st in log['steps'])
-        if not finite:
-            res.count('nonfinite-run-skipped')
+        ok, val = vlib.guarded(res, 'diffusion-run', _desc(case), one_case, ctx, case, factory, oracle_only)
+        if not ok:
+            res.case(('raised', case.get('model'), case.get('tseed')), False)
+            res.count('case-raised')
             continue
-        oracle(res, case, log)
-        if not oracle_only:
-            shape_ok = all(r.shape == (E, N + 1) for r in log['raw'])
-            if shape_ok:
-                aux = aux_lines(case, log, ctx.rng)
-                batch.append((case, log, len(lines), aux))
-                lines.append(driver_line(case, log))
-                lines += [a[1] for a in aux]
+        local, item = val
+        res.merge(local)
+        del res.samples[3:]
+        if item is not None:
+            c, lg, aux, ls = item
+            batch.append((c, lg, len(lines), aux))
+            lines += ls
         if len(batch) >= 40:
-            _flush(res, batch, lines)
+            vlib.guarded(res, 'driver-replay', None, _flush, res, batch, lines)
             batch, lines = [], []
     if batch:
-        _flush(res, batch, lines)
+        vlib.guarded(res, 'driver-replay', None, _flush, res, batch, lines)
 
 
 def _flush(res, batch, lines):
@@ -969,6 +995,7 @@ def corr(ctx, ncases=None, oracle_only=False):
             import traceback
             res.extra['real_db_error'] = traceback.format_exc()[-800:]
             res.count('real-db-error')
+    vlib.finish_guard(res)
     return res
 
 
@@ -979,6 +1006,8 @@ def search(ctx, broken):
 
 def replay(ctx, entry):
     c = entry['violation']['case']
+    if 'model' not in c and isinstance(c.get('case'), dict):
+        c = c['case']                      # violation made by vlib.guarded: {case, raised_at}
     if 'real_db' in c:
         r = Result(); ctx.driver_ok = False; real_db_cases(ctx, r, oracle_only=True)
     else:
@@ -990,4 +1019,5 @@ def replay(ctx, entry):
         process(ctx, r, [case], oracle_only=True)
     for v in r.violations[:8]:
         print('  ', v['key'], v['what'], v['observed'], v['required'])
+    vlib.finish_guard(r)
     return not r.violations
